@@ -25,6 +25,9 @@ Second == {[kind |-> "none", a |-> "1", b |-> "1"]}
   \* a second line of the same kind on the same day (they are merged): BUYSAME = another BUY on the first BUY's day,
   \* SELLPAIR = two SELLs on one day with quantities a and b
   \cup {[kind |-> k, a |-> a, b |-> b] : k \in {"BUYSAME", "SELLPAIR"}, a \in Mags, b \in Mags}
+  \* a reorganisation of ratio a dated between a sale of b shares and a repurchase within 30 days (the look-ahead
+  \* has to carry the ratio from the sale to the purchase)
+  \cup {[kind |-> k, a |-> a, b |-> b] : k \in {"SPLITMID", "UNSPLITMID"}, a \in Mags, b \in {"1", "0.0000000000000000000000000001"}}
 EmitHostile ==
   \A q \in Mags : \A p \in Mags : \A s \in Second : \A d \in DatesH : \A order \in {"buy_first", "second_first"} :
     (s.kind = "none" => order = "buy_first") =>
